@@ -91,7 +91,26 @@ def mk_stream(cases):
 
 
 def mutual_cases(rng, n):
+    """Expression-valued assignments that mention other assigned names; in half of them, deliberately, one name gets an
+    expression over another name of the same call that is itself assigned a plain NUMBER (N: M + 1, M: 3)."""
     cs = [c for c in c05.build_cases(rng, 3 * n, 2) if c["mode"] == "expr"][:n]
+    for c in cs:
+        keys = [k for k, _ in c["assign"] if k.rsplit(".", 1)[-1] not in H.COUNT_NAMES + H.POW_EXPONENTS and "#" not in k]
+        if len(keys) >= 2 and rng.random() < 0.5:
+            a, b = rng.sample(keys, 2)
+            e = rng.choice([E.op("add", E.sym(b), E.num(1)), E.op("mul", E.num(2), E.sym(b)), E.op("sub", E.sym(b), E.sym(a))])
+            new = []
+            for k, v in c["assign"]:
+                if k == a:
+                    new.append([k, ["str", E.to_str(e), e]])
+                elif k == b:
+                    new.append([k, ["int", rng.randint(2, 9)]])
+                else:
+                    new.append([k, v])
+            c["assign"] = new
+            if "perm" in c:
+                c["perm"] = list(reversed(new))
+            c.pop("split", None)
     return cs
 
 
